@@ -14,14 +14,15 @@ from anyio import from_thread, to_thread  # noqa: E402
 
 CV = contextvars.ContextVar("c14", default="unset")
 
-BEHAVIOURS = ["ret", "raise", "gate", "ctx", "check", "cb_sync", "cb_async"]
+BEHAVIOURS = ["ret", "raise", "gate", "ctx", "check", "cb_sync", "cb_async", "ret_exc",
+              "ret_exc_bare"]
 
 
 def programs(tier):
     progs = []
     if tier == "quick":
         combos = [("ret",), ("gate",), ("raise", "gate"), ("gate", "gate"), ("ctx", "ret"),
-                  ("check",), ("cb_sync",), ("cb_async",), ("gate", "check")]
+                  ("check",), ("cb_sync",), ("cb_async",), ("gate", "check"), ("ret_exc",), ("ret_exc_bare",)]
         totals = [1, 2]
     else:
         combos = [(b,) for b in BEHAVIOURS] + [c for c in itertools.combinations_with_replacement(
@@ -86,6 +87,10 @@ def build(world, program):
                     return ("val", i)
                 if kind == "raise":
                     raise Boom(f"T{i}")
+                if kind == "ret_exc":
+                    return ("val", ValueError(f"returned{i}"))  # an exception *instance* as value
+                if kind == "ret_exc_bare":
+                    return KeyError(f"returned{i}")
                 if kind == "gate":
                     sched.block(lambda: gates[i])
                     return ("val", i)
@@ -134,7 +139,8 @@ def build(world, program):
                 try:
                     r = await to_thread.run_sync(thread_fn, i, kind, limiter=limiter_arg,
                                                  abandon_on_cancel=program["abandon"])
-                    log("result", i, "ok", list(r) if isinstance(r, tuple) else r)
+                    log("result", i, "ok", [repr(x) if isinstance(x, BaseException) else x
+                                            for x in r] if isinstance(r, tuple) else repr(r))
                 except BaseException as e:
                     log("result", i, harness.classify(e))
                     if isinstance(e, asyncio.CancelledError):
@@ -195,6 +201,8 @@ def check(program, ex):
             v.append(f"call {i} ({kind}) never finished")
             continue
         expected = {"ret": ["val", i], "gate": ["val", i], "ctx": ["ctx", f"ctx{i}"],
+                    "ret_exc": ["val", repr(ValueError(f"returned{i}"))],
+                    "ret_exc_bare": repr(KeyError(f"returned{i}")),
                     "cb_sync": ["val", ["cb", i]], "cb_async": ["val", ["cb", i]],
                     "check": ["val", i]}.get(kind)
         if r[0] == "ok":
